@@ -2,10 +2,11 @@
 # runs every registered check of a tier in sequence and prints a summary line per check
 tier=${1:-quick}; shift
 ids=${@:-$(python3 -c "import json;print(' '.join(sorted(k for k in json.load(open('checks.json')) if not k.startswith('_'))))")}
+mkdir -p out
 for c in $ids; do
   t0=$(date +%s)
-  ./check $c --tier $tier > out_$c.log 2>&1; rc=$?
+  ./check $c --tier $tier > out/sweep_$c.log 2>&1; rc=$?
   t1=$(date +%s)
-  echo "$c tier=$tier rc=$rc wall=$((t1-t0))s $(grep -c '^KNOWN-FINDING' out_$c.log) known $(grep '^check ' out_$c.log | tail -1)"
-  grep -E '^VIOLATION|^INCONCLUSIVE|signature:' out_$c.log | head -5
+  echo "$c tier=$tier rc=$rc wall=$((t1-t0))s $(grep -c '^KNOWN-FINDING' out/sweep_$c.log) known $(grep '^check ' out/sweep_$c.log | tail -1)"
+  grep -E '^VIOLATION|^INCONCLUSIVE|signature:' out/sweep_$c.log | head -5
 done
